@@ -12,7 +12,9 @@ for d in seeded/*/; do
   checks=$(python3 -c "import json;print(' '.join(json.load(open('$d/meta.json')).get('caught_by') or ['$prop']))")
   git -C $repo apply $PWD/$d/patch.diff 2>/dev/null || { echo "$id: PATCH-DOES-NOT-APPLY"; bad=1; continue; }
   for c in $checks; do
+    cp evidence/$c.json /tmp/evidence_$c.$$.json 2>/dev/null
     out=$(timeout 3000 ./check $c 2>&1); rc=$?
+    [ -f /tmp/evidence_$c.$$.json ] && mv /tmp/evidence_$c.$$.json evidence/$c.json
     v=$(echo "$out" | grep -E "^VIOLATION" | head -1)
     if [ $rc -eq 1 ] && [ -n "$v" ]; then echo "$id vs $c: caught :: $v"; else echo "$id vs $c: NOT-CAUGHT rc=$rc :: $(echo "$out" | tail -1)"; bad=1; fi
   done
